@@ -3007,12 +3007,77 @@ async def listen_fail_scenario(rig: Rig, case, labels) -> bool:
         blocker.close()
 
 
+async def listen_late_scenario(rig: Rig, case, labels) -> bool:
+    """A client-side forwarding asked for when the connection is (being)
+    closed: the call may fail or hand back a closed listener, but nothing
+    may stay listening for a connection that is gone"""
+
+    labels.add('listen-late:' + case['kind'])
+    labels.add('when:' + case['when'])
+    await rig.start()
+    before = own_listeners()
+    conn = rig.conn
+    path = os.path.join(rig.tmp, 'late.sock')
+
+    def ask():
+        if case['kind'] == 'local':
+            return conn.forward_local_port('127.0.0.1', 0, '127.0.0.1', 9)
+        if case['kind'] == 'socks':
+            return conn.forward_socks('127.0.0.1', 0)
+        if case['kind'] == 'path':
+            return conn.forward_local_path(path, '/nonexistent')
+        return conn.forward_local_port_to_path('127.0.0.1', 0,
+                                               '/nonexistent')
+
+    async def asked():
+        return await ask()
+
+    if case['when'] == 'closed':
+        conn.abort()
+        await rig.must(conn.wait_closed(), 'close')
+        task = rig.loop.create_task(asked())
+    else:
+        # the request is on its way (listeners are created in a coroutine)
+        # when the connection ends
+        task = rig.loop.create_task(asked())
+        await asyncio.sleep(0)
+        conn.abort()
+        await rig.must(conn.wait_closed(), 'close')
+
+    try:
+        lst = await rig.must(task, 'forwarding request')
+        labels.add('listen-late:returned')
+    except (OSError, asyncssh.Error, asyncssh.ChannelListenError):
+        lst = None
+        labels.add('listen-late:raised')
+
+    for _ in range(3):
+        await asyncio.sleep(0.01)
+
+    after = own_listeners()
+
+    if after != before:
+        raise Violation(
+            'release', '%s forwarding requested %s: the connection is '
+            'closed and the process holds listening sockets %r (before: '
+            '%r)%s' % (case['kind'], {'closed': 'on a closed connection',
+                                      'closing': 'just before the '
+                                      'connection was aborted'}[case['when']],
+                       after, before, '' if lst is None else
+                       '; the call returned a listener'),
+            'listen-late:listener-left:' + case['kind'])
+
+    return True
+
+
 def run_listen_fail(case) -> CaseResult:
     rig = Rig()
     labels = set()
 
     try:
-        nontrivial = rig.run(listen_fail_scenario(rig, case, labels))
+        nontrivial = rig.run(
+            (listen_late_scenario if 'when' in case
+             else listen_fail_scenario)(rig, case, labels))
     finally:
         rig.close()
 
@@ -3023,6 +3088,10 @@ def listen_fail_cases(tier: str):
     for kind in ('local', 'socks', 'remote'):
         for busy in ('v6', 'v4'):
             yield {'kind': kind, 'busy': busy}
+
+    for kind in ('local', 'socks', 'path', 'port-to-path'):
+        for when in ('closed', 'closing'):
+            yield {'kind': kind, 'when': when}
 
 
 def release_strategy(tier: str):
@@ -3361,7 +3430,9 @@ FAMILIES = [
                       'end-close', 'end-abort', 'end-sabort', 'end-cut']},
            case_timeout=120),
     Family('listen-fail', run_listen_fail, enumerate=listen_fail_cases,
-           exhaustive=True, required={'all': ['listen-refused']},
+           exhaustive=True, required={'all': ['listen-refused',
+                                              'when:closed',
+                                              'when:closing']},
            case_timeout=120),
     Family('interop', run_interop, enumerate=interop_cases,
            required={'all': ['ssh-' + m for m in INTEROP_MODES] +
